@@ -18,15 +18,26 @@ def regen_slots():
     import slots
     return slots.regenerate()
 
+_shared = {}
+def _objects(c):
+    """one set of option objects per case, shared by all calls made for that case (a session reusing its settings)"""
+    key = id(c)
+    if key not in _shared:
+        _shared.clear()
+        fek = implutil.fe_kwargs(c['fk'], c['boundary'], c['pad'])
+        bk = dict(c['bk']) if c['bk'] is not None else None
+        if bk and 'amp_threshes' in bk:
+            bk['amp_threshes'] = tuple(bk['amp_threshes'])
+        th = dict(c['th']) if c['th'] is not None else None
+        import copy
+        _shared[key] = (fek, bk, th, copy.deepcopy((fek, bk, th)))
+    return _shared[key]
+
 def _call(c, return_samples=True, via_object=False):
     from bycycle.features import compute_features
     from bycycle import Bycycle
     sig = proto.hex2arr(c['sig'])
-    fek = implutil.fe_kwargs(c['fk'], c['boundary'], c['pad'])
-    bk = dict(c['bk']) if c['bk'] is not None else None
-    if bk and 'amp_threshes' in bk:
-        bk['amp_threshes'] = tuple(bk['amp_threshes'])
-    th = dict(c['th']) if c['th'] is not None else None
+    fek, bk, th, _ = _objects(c)
     if via_object:
         bm = Bycycle(center_extrema=c['center'], burst_method=c['method'], burst_kwargs=bk, thresholds=th,
                      find_extrema_kwargs=fek, return_samples=return_samples)
@@ -96,6 +107,9 @@ def evaluate(ctx, cases):
                 r['nosamples_ok'] = (len(df2) == len(df)) and not any(col.startswith('sample_') for col in df2.columns)
                 df3 = _call(c, via_object=True)
                 r['object_ok'] = bool(df3.equals(df))
+                df4 = _call(c)                      # the first call again, with the same option objects
+                fek, bk, th, snap = _objects(c)
+                r['repeat_ok'] = bool(df4.equals(df)) and repr((fek, bk, th)) == repr(snap)
             except Exception as e:
                 r['second_call_error'] = type(e).__name__ + ': ' + str(e)[:100]
         except Exception as e:
@@ -131,8 +145,8 @@ def evaluate(ctx, cases):
                 judge_ok = False; info['why'] = 'row count %d but specification keeps %d peaks' % (r['n'], len(spec[1][0]))
             if not r['has_burst']:
                 judge_ok = False; info['why'] = 'no is_burst column'
-            if 'second_call_error' in r or not r.get('nosamples_ok', True) or not r.get('object_ok', True):
-                judge_ok = False; info['why'] = 'return_samples=False / Bycycle.fit disagree: %r' % {k: r.get(k) for k in ('second_call_error', 'nosamples_ok', 'object_ok')}
+            if 'second_call_error' in r or not r.get('nosamples_ok', True) or not r.get('object_ok', True) or not r.get('repeat_ok', True):
+                judge_ok = False; info['why'] = 'return_samples=False / Bycycle.fit / a repeated call with the same option objects disagree: %r' % {k: r.get(k) for k in ('second_call_error', 'nosamples_ok', 'object_ok', 'repeat_ok')}
             corr_ok = (model[0] == 'ok' and model[1] == rows)
             if not corr_ok and model[0] == 'ok':
                 pk = [row[0] for row in r['rows']]; tr = [row[4] for row in r['rows']] + ([r['rows'][-1][5]] if r['rows'] else [])
